@@ -109,7 +109,7 @@ func main() {
 				args = append(args, "-harness", *only)
 			}
 			cmd := exec.Command(bin, args...)
-			cmd.Env = append(env(), "GOMAXPROCS=1", "GOMEMLIMIT=6GiB")
+			cmd.Env = append(env(), "GOMAXPROCS=1", "GOMEMLIMIT=6GiB", "VERIF_ROOT="+verif, "VERIF_REPO="+repo)
 			if *tier == "thorough" {
 				// the thorough tier runs every explored item with the map-access race monitor on
 				cmd.Env = append(cmd.Env, "VERIF_RACE=1")
@@ -350,7 +350,7 @@ func replay(verif, repo, file string) {
 	scratch, bin := build(verif, repo)
 	defer os.RemoveAll(scratch)
 	cmd := exec.Command(bin, "replay", file)
-	cmd.Env = append(env(), "GOMAXPROCS=1")
+	cmd.Env = append(env(), "GOMAXPROCS=1", "VERIF_ROOT="+verif, "VERIF_REPO="+repo)
 	cmd.Stdout, cmd.Stderr = os.Stdout, os.Stderr
 	if err := cmd.Run(); err != nil {
 		if ee, ok := err.(*exec.ExitError); ok {
